@@ -522,12 +522,13 @@ class _ChildrenList(_TaskList):
         :param key: attribute name or list of attribute names
         :param reverse: reverse sort
         """
+        # The list is shared with the parent task and with other list objects: it must be changed in place
         if type(key) is str:
-            self._list = sorted(self._list, key=lambda x: x.__getattribute__(key), reverse=reverse)
+            self._list[:] = sorted(self._list, key=lambda x: x.__getattribute__(key), reverse=reverse)
         elif type(key) is list or type(key) is tuple or type(key) is set:
-            self._list = sorted(self._list,
-                                key=lambda x: '-'.join([str(x.__getattribute__(k)) for k in key]),
-                                reverse=reverse)
+            self._list[:] = sorted(self._list,
+                                   key=lambda x: '-'.join([str(x.__getattribute__(k)) for k in key]),
+                                   reverse=reverse)
         else:
             raise RuntimeError(f"Unsupported key type {type(key)}")
 
@@ -549,7 +550,8 @@ class _ChildrenList(_TaskList):
             new_list.append(ch)
             _all.remove(ch)
 
-        self._list = new_list + _all
+        # The list is shared with the parent task and with other list objects: it must be changed in place
+        self._list[:] = new_list + _all
         self.__setter(self._list)
 
 
